@@ -29,7 +29,27 @@ def _is_seek0(node):
 
 
 def extract():
-    C = {}
+    """Every group of constants is extracted on its own: a source shape one of them does not recognise leaves only
+    THAT constant out (the Coq files and properties that use it stop compiling - fail closed for the dependants only),
+    not the constants of unrelated functions.  Before, a refactoring of random_walk (property C16) also took the
+    session constants of C12 / C17 with it."""
+    C, errors = {}, []
+    for part in (_part_load_base, _part_load_save, _part_session_quit, _part_prince, _part_random_walk):
+        try:
+            part(C)
+        except Exception as e:          # ExtractError and anything unexpected in the source
+            errors.append("%s: %s: %s" % (part.__name__, type(e).__name__, e))
+    extract.errors = errors
+    if errors:
+        import sys
+        print("harness/consts/guesser.py: constants left out (their dependants will not compile): " + "; ".join(errors),
+              file=sys.stderr)
+    if not C:
+        raise ExtractError("; ".join(errors))
+    return C
+
+
+def _part_load_base(C):
     # --- _load_base_structures: does the first scan rewind when no 'M' line exists?
     f = _func(_parse("lib_guesser/grammar_io.py"), "_load_base_structures")
     scans = []
@@ -54,6 +74,9 @@ def extract():
     if not (in_if or after):
         raise ExtractError("_load_base_structures: no rewind after finding M")
     C["skip_brute_rewinds_without_M"] = bool(in_else or after)
+
+
+def _part_load_save(C):
     # --- pcfg_guesser.main: is the save file read before the grammar is built?
     m = _func(_parse("pcfg_guesser.py"), "main")
     calls = {}
@@ -63,6 +86,9 @@ def extract():
     if "load_save" not in calls or "PcfgGrammar" not in calls or len(calls["PcfgGrammar"]) != 1:
         raise ExtractError("pcfg_guesser.main: load_save / PcfgGrammar calls not found as expected")
     C["load_save_before_grammar"] = min(calls["load_save"]) < calls["PcfgGrammar"][0]
+
+
+def _part_session_quit(C):
     # --- CrackingSession.run: what does the main loop test to decide to quit?
     cs = _parse("lib_guesser/cracking_session.py")
     run = None
@@ -85,6 +111,9 @@ def extract():
         C["session_polls_quit_flag"] = True
     else:
         raise ExtractError("CrackingSession.run: unexpected quit test(s) %r" % tests)
+
+
+def _part_prince(C):
     # --- create_prince_wordlist: is the remaining size passed to create_guesses?
     pl = _func(_parse("lib_princeling/wordlist_generation.py"), "create_prince_wordlist")
     calls = [n for n in ast.walk(pl) if isinstance(n, ast.Call) and isinstance(n.func, ast.Attribute)
@@ -94,10 +123,17 @@ def extract():
     kw = {k.arg: ast.unparse(k.value) for k in calls[0].keywords}
     if "limit" not in kw and len(calls[0].args) == 1:
         C["prince_passes_remaining_size"] = False
-    elif kw.get("limit", "").replace(" ", "") in ("max_size-num_generated_guesses", "remaining"):
+    elif "limit" in kw and kw["limit"] != "None":
+        # SOME limit is passed.  WHAT is passed (max_size - num_generated_guesses, under whatever local names) is
+        # decided by the translator tie of the function itself (harness/translate_session.py ->
+        # gen/SessionPrince_gen.v, SessionPrinceGenProofs.prince_eq); the shape check that used to be here raised on
+        # harmless renames of the locals
         C["prince_passes_remaining_size"] = True
     else:
         raise ExtractError("create_prince_wordlist: unexpected create_guesses arguments %r" % kw)
+
+
+def _part_random_walk(C):
     # --- random_walk: what happens when rounding leaves the running sum below the draw?
     rw = None
     for n in ast.walk(_parse("lib_guesser/pcfg_grammar.py")):
